@@ -1,120 +1,253 @@
 """Per-property registry: which sidecar contract modules are proved (A), which
-bounded drivers run (B), what is assumed and what stays unreached."""
+bounded drivers run (B), what is assumed and what stays unreached.
+MANIFEST.json is generated from this file (python3-vt -m vf.mkmanifest)."""
 
 FLOATS = ('Python float is treated as a mathematical real in every proved '
-          'obligation (no rounding, no NaN/inf unless the code names it)')
+          'obligation (no rounding, no NaN/inf unless the code names it); decimal '
+          'literals denote their decimal value')
+BOUNDED = ('bounded drivers are run-time contracts on the real functions over '
+           'enumerated/generated inputs: labelled bounded, never counted as proved')
+TECH_PB = ('contract-based deductive verification (VCs generated from the real '
+           'source, z3/cvc5) for the clauses within reach; bounded run-time '
+           'contracts for the rest')
+TECH_B = ('run-time contracts on the real functions driven over an exhaustive '
+          'small scope plus seeded generation (bounded stand-in; the code is '
+          'outside the provable subset)')
 
 PROPS = {}
 
-PROPS['C15'] = dict(
-    claimed=True,
-    level_text=('Numeric range/inverse laws of mod, div, wrap, fold, clip, round, roundup, trunc and the '
-                'midi/cps, ratio/midi, oct/cps, amp/db pairs are postconditions on the real kernels and are '
-                'discharged for all int/float arguments (one case per type assignment; floats as reals); the '
-                'opcode tables and the selector each operator method passes are exhaustive finite obligations. '
-                'Lifting over functions/streams/patterns/lists/operands is decided by a bounded run-time '
-                'contract driver (all 127 operator methods x operand kinds x forced samples) — bounded, not proved.'),
-    level_note=('Trusted: z3/cvc5; floats treated as reals; decimal literals exact; axioms log2(2^y)=y, '
-                '2^(log2 x)=x for x>0 (and base 10); scbuiltin wrappers transparent on plain numbers. '
-                'Bounded part: sampled operands, 1e-9/1e-12 tolerances on non-dyadic floats.'),
-    technique='contract-based deductive verification (AST->VC, z3/cvc5) of the numeric kernels + exhaustive tables; bounded run-time contracts for lifting',
-    level='other',
-    contracts=['base_builtins', 'synth_specialindex'],
-    drivers=['vf.drivers.C15'],
-    assumptions=[FLOATS],
-    trusted_base=[],
-    unreached=[],
-    explanation='',
-)
 
-PROPS['C12'] = dict(
-    claimed=True,
-    level_text=('Every clause of the statement is a discharged obligation over the real TempoClock methods: the '
-                'reciprocal/meter class invariants are established by __init__ and preserved by tempo=, etempo, '
-                'beats=, beats_per_bar= (so they hold after any history); there-and-back identities, continuity of '
-                'the (beats, seconds) pair and advance at the new tempo are two-call theorems stated with API calls '
-                'only (ghost lemma functions whose callees are the real bodies inlined from /repo); '
-                'next_time_on_grid is proved not-before-reference, below reference+quant and congruent to phase; '
-                'play(quant) schedules exactly one task exactly there; bar conversions inverse, next_bar a bar '
-                'line not before the beat.'),
-    level_note=('Assumes floats are reals (IEEE rounding ignored: the bounded driver measures the float error), '
-                'clock running state and rt/nrt mode as ghost booleans, NotificationCenter.notify and _sched_add as '
-                'opaque trace events, bi.mod/bi.roundup inlined from builtins.py. Trusted: z3.'),
-    technique='contract-based deductive verification: class invariants + two-call lemma functions over the real method bodies, z3',
-    level='proof',
-    contracts=['base_clock'],
-    drivers=[],
-    assumptions=[FLOATS],
-    trusted_base=[],
-    unreached=[],
-    explanation='',
-)
+def P(pid, **kw):
+    kw.setdefault('contracts', [])
+    kw.setdefault('drivers', [])
+    kw.setdefault('assumptions', [FLOATS, BOUNDED] if kw['contracts'] else [BOUNDED])
+    kw.setdefault('trusted_base', [])
+    kw.setdefault('unreached', [])
+    kw.setdefault('explanation', '')
+    kw.setdefault('technique', TECH_PB if kw['contracts'] else TECH_B)
+    PROPS[pid] = kw
 
-PROPS['C16'] = dict(
-    level='other',
-    contracts=['synth_engine'],
-    drivers=[],
-    assumptions=[FLOATS],
-    trusted_base=[],
-    unreached=[],
-    explanation='',
-)
 
-PROPS['C07'] = dict(
-    level='other',
-    contracts=['base_oscinterface'],
-    drivers=[],
-    assumptions=[FLOATS],
-    trusted_base=[],
-    unreached=[],
-    explanation='',
-)
+P('C01', claimed=True, level='other',
+  contracts=['synth_specialindex', 'synth_ugen'], drivers=['vf.drivers.C01'],
+  level_text=('The opcode numbers of every operator name and Python alias, and the selector each '
+              'AbstractObject operator method passes, are exhaustive finite obligations on the real '
+              'tables; the constructor-time algebraic short-cuts and rate inference of the operator '
+              'units are postconditions discharged for all operand kinds. The optimiser as a whole '
+              '(rewrites, dead-code elimination, topological sort) is decided by a bounded run-time '
+              'contract: every generated graph program is compiled, its bytes parsed by an '
+              'independent SCgf reader and its denotation compared with the source expression modulo '
+              'the ring identities of the statement.'),
+  level_note=('The optimiser mutates object graphs through sets and call-backs and is outside the '
+              'provable subset: bounded only (exhaustive small DAGs + seeded random). Trusted: the '
+              'independent SCgf-2 reader and denotation normal form (oracles), Opcodes.h numbering.'),
+  unreached=['acceptance by a real scsynth'])
 
-PROPS['C06'] = dict(
-    level='other',
-    contracts=['base_osclib'],
-    drivers=[],
-    assumptions=[FLOATS],
-    trusted_base=[],
-    unreached=[],
-    explanation='',
-)
+P('C02', claimed=True, level='other',
+  contracts=['synth_fmtrw'], drivers=['vf.drivers.C02'],
+  level_text=('Byte lengths and value ranges of the binary writers are discharged obligations; '
+              'well-formedness of whole definitions (complete parse as one SCgf-2 definition, wires '
+              'refer to earlier units/existing constants, width-first ordering, consistent counts, '
+              'acceptance by the library reader, rejection of invalid graphs) is decided by a bounded '
+              'run-time contract with an independent reader.'),
+  level_note='The writer and the reader of whole definitions are bounded only. Trusted: independent SCgf-2 reader.',
+  unreached=['acceptance by a real scsynth'])
 
-PROPS['C01'] = dict(
-    level='other',
-    contracts=['synth_specialindex'],
-    drivers=[],
-    assumptions=[FLOATS],
-    trusted_base=[],
-    unreached=[],
-    explanation='',
-)
+P('C03', claimed=True, level='exploration', drivers=['vf.drivers.C03'],
+  level_text=('The wrap-and-zip law is checked as a run-time contract on the real constructors: every '
+              'directly delegating constructor of every installed unit-generator class (found by an AST '
+              'scan at check time) x argument shapes, every operator and ChannelList convenience method, '
+              'output units, and the list algebra helpers against an independent reference law.'),
+  level_note=('_multi_new recursion over ~300 classes is outside the provable subset. Bounded: shapes '
+              'from {scalar, tuple, lists of length 1-3, nested, ChannelList, default} for the first 3 '
+              'parameters; the law is relative to the single-channel call.'))
 
-PROPS['C19'] = dict(
-    claimed=True,
-    level_text=('Shape-name table and curve values are exhaustive finite obligations on the real '
-                'Env._shape_number/_curve_value; the array layout, the eleven constructors, client-side '
-                'evaluation (breakpoints, betweenness, hold) and the EnvGen inputs in definition bytes are decided '
-                'by a bounded run-time contract driver against an independent Env reference.'),
-    level_note=('Env._envgen_format/_env_at go through dynamic graph-parameter dispatch and are outside the '
-                'provable subset: bounded only (20k formats, 2.5k envelopes x dense time grids in quick). '
-                'Betweenness tolerance 1e-9 (1e-5 with cubed segments).'),
-    technique='exhaustive table obligations on the real functions + bounded run-time contracts against an independent Env reference',
-    level='other',
-    contracts=['synth_envelope'],
-    drivers=['vf.drivers.C19'],
-    assumptions=[FLOATS],
-    trusted_base=[],
-    unreached=[],
-    explanation='',
-)
+P('C04', claimed=True, level='exploration', drivers=['vf.drivers.C04'],
+  level_text=('Control layout, name table, lags, wiring of the body to control outputs, rates/'
+              'annotations, prepend, wrap nesting, metadata specs, variants and call mapping are '
+              'checked on the emitted bytes (independent SCgf reader) for exhaustively enumerated '
+              'signatures of up to 3 parameters and random ones up to 40.'),
+  level_note='Signature introspection (inspect) is outside the provable subset: bounded only.')
 
-PROPS['C09'] = dict(
-    level='proof',
-    contracts=['base_taskq'],
-    drivers=[],
-    assumptions=[FLOATS],
-    trusted_base=[],
-    unreached=[],
-    explanation='',
-)
+P('C05', claimed=True, level='other',
+  contracts=['base_clock_loops'], drivers=['vf.drivers.C05'],
+  level_text=('Data-flow obligations on the real clock loop bodies: a task that returns a number is '
+              're-scheduled exactly once at its scheduled time plus that number (no occurrence of the '
+              'physical time in the term), logical time is set to the scheduled time before the task '
+              'runs, and the awake flag is cleared on every outcome. Whole programs (nested routines on '
+              'three kinds of clocks, NRT exhaustively for one level, RT under injected wake-up jitter) '
+              'are compared bit-for-bit with a float replay of start + sum of deltas.'),
+  level_note=('Thread interleavings and OS latency are not quantified over: the proved obligations make '
+              'the scheduled time a function of logical quantities only under the lock discipline; RT runs '
+              'sample schedules. Trusted: threading.Condition, heap contract (C09).'),
+  unreached=['all thread interleavings / wake-up latencies (sampled with injected 0-20 ms jitter)'])
+
+P('C06', claimed=True, level='other',
+  contracts=['base_osclib'], drivers=['vf.drivers.C06'],
+  level_text=('Size and refusal laws of the OSC encoders (4-byte alignment, utf-8 length + 1..4 NULs, '
+              'blob size prefix + padding with its loop invariant, int32/float32/timetag ranges, NUL '
+              'refused) are discharged on the real functions for all inputs. Conformance to OSC 1.0, '
+              'round trips, the sizing theorem (prediction >= real size) and clumping are decided by a '
+              'bounded run-time contract against an independent OSC 1.0 codec (all argument lists of '
+              'length <= 3 over a 30-value alphabet, nested to depth 4, sizes straddling 65504).'),
+  level_note=('Byte contents are abstract in the proofs (length and contains-NUL only); content round '
+              'trips and the recursive sizing functions are bounded. Trusted: struct.pack ranges/lengths, '
+              'str.encode length facts.'))
+
+P('C07', claimed=True, level='other',
+  contracts=['base_oscinterface'], drivers=['vf.drivers.C07'],
+  level_text=('Time-tag arithmetic is proved on the real functions: RT bundles carry '
+              'elapsed_time_to_osc(send_time + latency) or IMMEDIATELY for None/negative latency, NRT '
+              'bundles are relative inside routines and absolute outside, nested bundles may not '
+              'precede their parent, and the OSC time conversions are monotone and inverse within '
+              '2^-32 s. Scores (order, tail marker, raw form) and RT stamping under jitter are decided '
+              'by bounded run-time contracts.'),
+  level_note='OscScore ordering relies on the TaskQueue contract (C09). RT runs sample schedules.',
+  unreached=['RT stamping for all schedules (sampled under injected jitter)'])
+
+P('C08', claimed=True, level='other',
+  contracts=['base_clock_loops'], drivers=['vf.drivers.C08'],
+  level_text=('Monitor obligations on the sequential code under the lock are proved (notification iff '
+              'the head of the queue changes; exceptions of a task never escape the loop and leave the '
+              'awake flag cleared; numeric return re-schedules relative to the scheduled time). Exactly-'
+              'once, never-early, order, cancellation and error isolation are checked by ghost monitors '
+              'on the real clock threads (bounded stress); timeliness gates only on the discriminating '
+              'scenario (a task becoming earliest while the thread sleeps).'),
+  level_note=('Concurrency is where this family is weakest: the interleaving quantifier is NOT discharged. '
+              'Trusted: threading.Condition semantics, TaskQueue contract (C09).'),
+  unreached=['all interleavings', 'liveness of Condition', 'OS wake-up latency'])
+
+P('C09', claimed=True, level='proof',
+  contracts=['base_taskq'], drivers=['vf.drivers.C09'],
+  level_text=('TaskQueue is verified as a data structure against an abstract view for ALL histories: a '
+              'quantified representation invariant is established by __init__/clear and preserved by '
+              'add, remove and pop (loop invariant + variant); add/remove/pop/peek/empty have '
+              'postconditions over the whole view (others undisturbed, re-add becomes the most recent '
+              'entry, pop/peek return the (time, insertion)-minimum/maximum, KeyError iff empty); a lemma '
+              'over the contracts gives non-decreasing time, FIFO among equal times and each item once. '
+              'A model-based bounded driver re-checks all histories of length <= 6 and the clients.'),
+  level_note=('Trusted: heapq (heappush/heappop/nsmallest/nlargest) under the stated library contract, '
+              'finite-set cardinality axioms, dict/itertools.count models. __iter__ is a generator: '
+              'bounded only. Priorities are finite reals.'))
+
+P('C10', claimed=True, level='exploration', drivers=['vf.drivers.C10'],
+  level_text=('Differential run-time contract: generated programs are run once under NrtMain and once '
+              'under RtMain with injected jitter (separate processes) and compared per routine and '
+              'logical time; two fresh NRT runs must give byte-identical scores; seeded random streams '
+              'must not depend on other routines.'),
+  level_note='Relational over two configurations and over schedules: bounded only (42 programs quick, 306 thorough).',
+  unreached=['the RT side for all schedules'])
+
+P('C11', claimed=True, level='other',
+  contracts=['base_stream'], drivers=['vf.drivers.C11'],
+  level_text=('Frame conditions of Routine.next are discharged for every outcome of the body (yield, '
+              'return, StopStream, YieldAndReset, AlwaysYield, other exceptions): the current time '
+              'thread is restored, the parent link cleared, the state is the documented one; the guard '
+              'table of pause/resume/stop/reset is proved. All operation sequences of length <= 5 over '
+              '11 body kinds, and Condition/FlowVar scenarios, are checked against a reference state '
+              'machine (bounded).'),
+  level_note=('The body is an uninterpreted call with the documented outcomes (rely: nested routines '
+              'restore the thread they found). Condition.wait/FlowVar.value are generators: bounded only.'))
+
+P('C12', claimed=True, level='proof',
+  contracts=['base_clock'], drivers=['vf.drivers.C12'],
+  level_text=('Every clause of the statement is a discharged obligation over the real TempoClock methods: the '
+              'reciprocal/meter class invariants are established by __init__ and preserved by tempo=, etempo, '
+              'beats=, beats_per_bar= (so they hold after any history); there-and-back identities, continuity of '
+              'the (beats, seconds) pair and advance at the new tempo are two-call theorems stated with API calls '
+              'only (ghost lemma functions whose callees are the real bodies inlined from /repo); '
+              'next_time_on_grid is proved not-before-reference, below reference+quant and congruent to phase; '
+              'play(quant) schedules exactly one task exactly there; bar conversions inverse, next_bar a bar '
+              'line not before the beat. A bounded driver replays random setter histories in NRT with an exact '
+              'rational reference.'),
+  level_note=('Assumes floats are reals (IEEE rounding ignored: the bounded driver measures the float error), '
+              'clock running state and rt/nrt mode as ghost booleans, NotificationCenter.notify and _sched_add as '
+              'opaque trace events, bi.mod/bi.roundup inlined from builtins.py. Trusted: z3.'),
+  technique='contract-based deductive verification: class invariants + two-call lemma functions over the real method bodies, z3')
+
+P('C13', claimed=True, level='exploration', drivers=['vf.drivers.C13'],
+  level_text=('Every __embed__ is a generator with yield from (outside the provable subset): decided by '
+              'run-time contracts. All pattern expressions of depth <= 2 over 27 constructors and ~100k '
+              'seeded random deeper ones are streamed and compared with an independent compositional '
+              'list semantics; immutability and seeded determinism/support of random patterns are '
+              'contracts of their own.'),
+  level_note='Bounded: first 64 items; corners the documentation leaves open are left unspecified and listed in notes.')
+
+P('C14', claimed=True, level='exploration', drivers=['vf.drivers.C14'],
+  level_text=('Key resolution is compared with the documented chains for all key subsets x 3 values x 3 '
+              'scales; played events and event stream players are checked on the NRT score (one /s_new at '
+              'logical time + latency with fresh id and the defined controls, gate-off at + sustain iff '
+              'gated, rests send nothing, timelines of Pbind/Pmono/Ppar/Pchain/Pdur compositions).'),
+  level_note='Event code is dynamic dictionary dispatch: bounded only. Modifier-only events are left unspecified.')
+
+P('C15', claimed=True, level='other',
+  contracts=['base_builtins', 'synth_specialindex'], drivers=['vf.drivers.C15'],
+  level_text=('Numeric range/inverse laws of mod, div, wrap, fold, clip, round, roundup, trunc and the '
+              'midi/cps, ratio/midi, oct/cps, amp/db pairs are postconditions on the real kernels and are '
+              'discharged for all int/float arguments (one case per type assignment; floats as reals); the '
+              'opcode tables and the selector each operator method passes are exhaustive finite obligations. '
+              'Lifting over functions/streams/patterns/lists/operands is decided by a bounded run-time '
+              'contract driver (all 127 operator methods x operand kinds x forced samples).'),
+  level_note=('Trusted: z3/cvc5; floats treated as reals; decimal literals exact; axioms log2(2^y)=y, '
+              '2^(log2 x)=x for x>0 (and base 10); scbuiltin wrappers transparent on plain numbers. '
+              'Bounded part: sampled operands, 1e-9/1e-12 tolerances on non-dyadic floats.'))
+
+P('C16', claimed=True, level='other',
+  contracts=['synth_engine'], drivers=['vf.drivers.C16'],
+  level_text=('Node ids: alloc returns counter | client bits inside the client range, the counter '
+              'advances cyclically (through the proved contract of bi.wrap), and a lemma by induction '
+              'over that contract shows that a full window of consecutive ids is pairwise distinct and '
+              'client ranges are disjoint. Block arithmetic (adjoins/join/split) is proved. The '
+              'ContiguousBlockAllocator itself is checked against an interval-set model over ALL '
+              'histories of length <= 7 and ALL internal tie-breaks (bounded, exhaustive small scope), '
+              'plus bus/buffer objects per client.'),
+  level_note=('The allocator invariant ties an index array, a dict of sets and two cursors through four '
+              'loops: bounded only. Bit operations modelled arithmetically with a disjointness side condition.'))
+
+P('C17', claimed=True, level='exploration', drivers=['vf.drivers.C17'],
+  level_text=('Every message emitted at the single OSC choke point during histories of client-object '
+              'operations is checked against grammars written from the Server Command Reference, for '
+              'ownership of the ids it mentions, creation/free pairing and bind() atomicity.'),
+  level_note='Bounded: ~38k histories quick. The command emitters build argument lists dynamically: outside the provable subset.',
+  unreached=['what a real server does with the commands'])
+
+P('C18', claimed=True, level='other',
+  contracts=['base_osclib_parse'], drivers=['vf.drivers.C18'],
+  level_text=('Progress of the bundle parser (every iteration consumes 4 + size bytes with size >= 0, or '
+              'raises) is a discharged loop obligation. Pattern matching is compared with an independent '
+              'OSC 1.0 matcher for ALL pattern/address pairs up to length 4/4 (exhaustive small scope); '
+              'dispatch and registries are checked on all histories of length <= 4 against a reference '
+              'model; the receive entry point is fuzzed under a watchdog.'),
+  level_note=('re is an external engine, responders use dynamic registries: bounded. Decoder leniencies '
+              'inherited from python-osc are recorded as known findings.'))
+
+P('C19', claimed=True, level='other',
+  contracts=['synth_envelope'], drivers=['vf.drivers.C19'],
+  level_text=('Shape-name table and curve values are exhaustive finite obligations on the real '
+              'Env._shape_number/_curve_value; the array layout, the eleven constructors, client-side '
+              'evaluation (breakpoints, betweenness, hold) and the EnvGen inputs in definition bytes are decided '
+              'by a bounded run-time contract driver against an independent Env reference.'),
+  level_note=('Env._envgen_format/_env_at go through dynamic graph-parameter dispatch and are outside the '
+              'provable subset: bounded only (20k formats, 2.5k envelopes x dense time grids in quick). '
+              'Betweenness tolerance 1e-9 (1e-5 with cubed segments).'),
+  technique='exhaustive table obligations on the real functions + bounded run-time contracts against an independent Env reference')
+
+P('C20', claimed=True, level='other',
+  contracts=['synth_synthdef'], drivers=['vf.drivers.C20'],
+  level_text=('SynthDef._build is proved to leave the build context clear and the lock released on every '
+              'outcome of its three phases (frame condition over try/except and with); a static '
+              'obligation lists every iteration over a set-typed value in synthdef.py/ugen.py and '
+              'requires it not to reach the output order. Byte equality across repeated, interleaved, '
+              'failing, concurrent, cross-mode and cross-hash-seed builds is a bounded run-time contract.'),
+  level_note='All hash seeds / all thread schedules are sampled only.',
+  unreached=['all PYTHONHASHSEED values', 'all thread schedules'])
+
+# contract modules that do not exist yet are dropped at import time (the
+# property then rests on its bounded driver and says so in the evidence)
+import importlib.util as _u
+import os as _os
+for _p in PROPS.values():
+    _p['contracts'] = [m for m in _p['contracts'] if _os.path.exists(
+        _os.path.join(_os.path.dirname(__file__), 'contracts', m + '.py'))]
+    _p['drivers'] = [d for d in _p['drivers'] if _os.path.exists(
+        _os.path.join(_os.path.dirname(_os.path.dirname(__file__)), *d.split('.')) + '.py')]
